@@ -82,17 +82,18 @@ func clSyncWhileLeaving(hist []string, m string) bool {
 func clusterRun(ctx *vc.Ctx, faults bool) {
 	type cfg struct {
 		n, l, depth int
+		pre         bool
 	}
 	var cfgs []cfg
 	switch {
 	case !faults && !ctx.Thorough():
-		cfgs = []cfg{{2, 3, 11}, {3, 2, 6}}
+		cfgs = []cfg{{2, 3, 11, false}, {3, 2, 6, false}, {3, 2, 6, true}}
 	case !faults:
-		cfgs = []cfg{{2, 4, 14}, {3, 3, 9}, {3, 4, 8}}
+		cfgs = []cfg{{2, 4, 14, false}, {3, 3, 8, false}, {3, 3, 8, true}}
 	case !ctx.Thorough():
-		cfgs = []cfg{{2, 3, 9}, {3, 3, 5}}
+		cfgs = []cfg{{2, 3, 9, false}, {3, 3, 5, false}, {3, 2, 7, true}}
 	default:
-		cfgs = []cfg{{2, 4, 12}, {3, 3, 8}, {3, 4, 7}}
+		cfgs = []cfg{{2, 4, 12, false}, {3, 3, 7, false}, {3, 3, 9, true}}
 	}
 	for _, c := range cfgs {
 		f := 0
@@ -100,6 +101,9 @@ func clusterRun(ctx *vc.Ctx, faults bool) {
 			f = 1
 		}
 		scn := fmt.Sprintf("N=%d;L=%d;faults=%d", c.n, c.l, f)
+		if c.pre {
+			scn += ";pre=1"
+		}
 		var shapes []clShape
 		ctx.BFS(vc.BFSOpts{Scenario: scn, MaxDepth: c.depth}, func(hist []string, v vc.BFSViolation) {
 			kinds := clKinds(hist)
